@@ -3,7 +3,7 @@ import ast
 
 from ..model import AnalysisError, unparse, walk_local
 from ..paths import Evaluator, is_c, show, C, S, NONE, subterms
-from ..indexclass import ElemEval, Pos, classes, Undecided
+from ..indexclass import ElemEval, Pos, classes, Undecided, spec_bin
 from .common import mk_algebra, trace_tail
 from . import l1
 
@@ -40,9 +40,7 @@ def run(ctx):
 
 
 def _spec_row(p, E):
-    if p.kind == 'at_first':
-        return 0
-    return p.k - 1 if p.kind == 'in' else None
+    return spec_bin(p, E)
 
 
 def _decode_coo(v):
@@ -63,9 +61,30 @@ def _decode_coo(v):
 
 
 def _find_digitize(t):
+    """The binning call inside t, normalised to (.., .., (values, edges)): np.digitize(x, edges) or
+    np.searchsorted(edges, x)."""
     for x in subterms(t):
         if x[0] == 'call' and x[1] == 'numpy.digitize' and len(x[2]) >= 2:
             return x
+        if x[0] == 'call' and x[1] == 'numpy.searchsorted' and len(x[2]) >= 2:
+            return ('call', x[1], (x[2][1], x[2][0]), x[3])
+    return None
+
+
+def _dense_fill(v, state):
+    """A dense result built by `out = np.zeros(shape); out[idx] = vals` (or `+=`), or by np.add.at(out, idx, vals).
+    Returns (kind, idx, vals, shape) with kind in {'assign', 'augassign', 'add.at'} or None."""
+    if v[0] == 'setitem' and v[1][0] == 'call' and v[1][1] in ('numpy.zeros', 'numpy.zeros_like'):
+        val = v[3]
+        shape = v[1][2][0] if v[1][2] else None
+        if val[0] == 'bin' and val[1] == '+' and val[2] == ('sub', v[1], v[2]):
+            return 'augassign', v[2], val[3], shape
+        return 'assign', v[2], val, shape
+    if v[0] == 'call' and v[1] in ('numpy.zeros', 'numpy.zeros_like'):
+        for eff in state.effects:
+            if eff[0] == 'expr' and eff[1][0] == 'call' and eff[1][1] == 'numpy.add.at' and len(eff[1][2]) == 3 \
+                    and eff[1][2][0] == v:
+                return 'add.at', eff[1][2][1], eff[1][2][2], (v[2][0] if v[2] else None)
     return None
 
 
@@ -85,8 +104,20 @@ def rule_classmap_2d(ctx, rid):
                 continue
             dec = _decode_coo(exits[0].value)
             if dec is None:
-                ctx.undecided(rid, fi, c, 'result is not a COO accumulation: %s' % show(exits[0].value)[:80])
-                continue
+                df = _dense_fill(exits[0].value, exits[0].state)
+                if df is not None and df[1][0] == 'tuple' and len(df[1][1]) == 2:
+                    kind, idx, vals, shape = df
+                    if kind != 'add.at':
+                        ctx.violation('C10.R3', fi, 'samples falling into the same (bin, time) cell are summed',
+                                      'the dense spectrum is filled by fancy-index %s, which keeps one of several '
+                                      'samples that fall into the same cell instead of summing them (two IMFs in one '
+                                      'frequency bin at the same time sample lose energy)'
+                                      % ('assignment' if kind == 'assign' else '`+=` (numpy does not accumulate '
+                                         'repeated coordinates)'))
+                    dec = (vals, idx[1][0], idx[1][1], shape, True)
+                else:
+                    ctx.undecided(rid, fi, c, 'result is not a COO accumulation: %s' % show(exits[0].value)[:80])
+                    continue
             data, rows, cols, shape, dense = dec
             if dense == sparse:
                 ctx.violation('C10.R3', fi, 'return_sparse=%s returns the %s form' % (sparse, 'sparse' if sparse else 'dense'),
@@ -216,7 +247,17 @@ def rule_classmap_1d(ctx, rid):
         rowt = idx[1][0] if idx[0] == 'tuple' else idx
         dg = _find_digitize(val)
         if dg is None:
-            ctx.undecided(rid, fi, c, 'per-bin value does not select by np.digitize classes')
+            edge_elems = {t[2] for t in subterms(val) if t[0] == 'sub' and t[1] == S('freq_edges') and is_c(t[2])}
+            whole = any(t == S('freq_edges') for t in subterms(val)
+                        ) and any(t[0] == 'call' and S('freq_edges') in t[2] for t in subterms(val))
+            if edge_elems and not whole:
+                ctx.violation(rid, fi, c,
+                              'the bin index is computed arithmetically from the edges %s only (no search of the edge '
+                              'vector): frequencies are binned wrongly for non-uniform edges such as log-spaced bins'
+                              % sorted('freq_edges[%s]' % e[1] for e in edge_elems),
+                              expected='np.digitize(infr, freq_edges)', found=show(val)[:120])
+            else:
+                ctx.undecided(rid, fi, c, 'per-bin value does not select by np.digitize classes')
             continue
         edges = dg[2][1]
         # the selection mask inside the value: inam[(finds[:, jj] == ii), jj]
